@@ -5,8 +5,8 @@ open MJ.Depth
 
 def parseEdge (s : String) : Option Edge :=
   match s.toList with
-  | [k, w, f, _x] =>
-    if w.isDigit ∧ f.isDigit then some ⟨k, w.toNat - '0'.toNat, f.toNat - '0'.toNat⟩ else none
+  | [k, w, f, _x, n] =>
+    if w.isDigit ∧ f.isDigit then some ⟨k, w.toNat - '0'.toNat, f.toNat - '0'.toNat, n⟩ else none
   | _ => none
 
 def parseEdges (s : String) : Option (Array Edge) :=
@@ -23,6 +23,10 @@ def showPred : Pred → String
 def predict (shape : String) (limit budget : Nat) : String :=
   let b : Option Nat := if budget = 0 then none else some budget
   match shape.splitOn ":" with
+  | ["N", spec] =>
+    match spec.toList with
+    | [c, n] => showPred (predictNoise c n limit)
+    | _ => "bad-case\t0\t0"
   | [fam, spec] =>
     match fam.toList, parseEdges spec with
     | [f], some edges =>
